@@ -11,6 +11,8 @@
 (*   sub1    Region1D front / trailing sub-regions                         *)
 (*   sub2    Region2D parallel / serial front / trailing sub-regions       *)
 (*   ctor    Region1D / Region2D validation                                *)
+(*   moo     rotation of a MASKED Array2D: Array2D.original_orientation /   *)
+(*           Layout2D.original_orientation_from, slim- or native-stored    *)
 (*   hist    a history of Layout2D objects: built (plainly or through      *)
 (*           rotated_from_roe_corner), then new_rotated_from /             *)
 (*           layout_extracted_from steps; the record carries the whole     *)
@@ -100,6 +102,37 @@ ClausesCtor(r) ==
        Cl("valid-region-accepted", (IF r.dim = 1 THEN Valid1(r.r) ELSE Valid2(r.r)) => ~ r.raised),
        Cl("accepted-region-keeps-coordinates", ~ r.raised => r.kept = r.r) >>
 
+\* ---- masked arrays -----------------------------------------------------------
+\* r.u: bitmap of the unmasked cells; r.entry: which call; r.stored: "native" / "slim" storage of the input;
+\* r.raised; r.dim: 2 (rows in r.vals; an Array2D result is read through its native view) or 1 (r.vals = << slim >>);
+\* r.hasmask / r.umask: the mask the result carries; r.twice: the call applied to its own result (2D results).
+\* A slim-stored input for which the call raises is not judged (the call hands the stored 1D values to a function
+\* documented for 2D arrays); whatever it returns is judged.
+ClausesMoo(r) ==
+    LET U == UnmaskedOf(r.u, r.w)
+        c == T2(r.c)
+        want == RotMasked(c, r.h, r.w, U)
+    IN IF r.raised THEN << Cl("masked-rotation-of-native-stored-input-raised", r.stored = "slim") >>
+       ELSE << Cl("masked-rotation-content",
+                  IF r.dim = 2 THEN r.vals = want ELSE r.dim = 1 /\ Len(r.vals) = 1 /\ r.vals[1] = SlimOf(want)),
+               Cl("masked-rotation-carried-mask-is-rotated",
+                  r.hasmask => r.umask = BitmapOf(RotUnmasked(c, r.h, r.w, U), r.h, r.w)),
+               Cl("masked-rotation-twice-restores", r.dim = 2 => r.twice = MaskedIdent(r.h, r.w, U)),
+               Cl("payload-independent", r.payload_ok) >>
+WantMoo(r) == [vals |-> RotMasked(T2(r.c), r.h, r.w, UnmaskedOf(r.u, r.w)),
+               umask |-> BitmapOf(RotUnmasked(T2(r.c), r.h, r.w, UnmaskedOf(r.u, r.w)), r.h, r.w)]
+\* a result that is exactly "the rotated content wrapped with the un-rotated mask" (for a mask that is not
+\* symmetric under the flips) is classified as such, per entry point; anything else by storage and corner
+MooSig(r) ==
+    LET U == UnmaskedOf(r.u, r.w)
+        c == T2(r.c)
+        stale == /\ ~ r.raised /\ r.dim = 2 /\ r.hasmask
+                 /\ r.umask = r.u
+                 /\ RotUnmasked(c, r.h, r.w, U) # U
+                 /\ r.vals = ApplyMask(RotMasked(c, r.h, r.w, U), U)
+    IN "moo:" \o r.entry \o (IF stale THEN ":result-carries-unrotated-mask"
+                              ELSE ":" \o r.stored \o ":corner" \o ToString(r.c[1]) \o ToString(r.c[2]))
+
 \* ---- layout histories -----------------------------------------------------
 \* r.regs: the three slots given to the constructor; r.steps: [op, c, e] records; observed after the last step:
 \* r.out (the three slots), r.arr (the array taken through the same history with layout_util / Region2D.slice),
@@ -142,6 +175,7 @@ Clauses(r) ==
       [] r.api = "sub2" -> ClausesSub2(r)
       [] r.api = "ctor" -> ClausesCtor(r)
       [] r.api = "hist" -> ClausesHist(r)
+      [] r.api = "moo" -> ClausesMoo(r)
       [] OTHER -> << Cl("unknown-api", FALSE) >>
 
 Want(r) ==
@@ -153,6 +187,7 @@ Want(r) ==
       [] r.api = "sub2" -> [out |-> Sub2(r.m, r.r, r.px)]
       [] r.api = "ctor" -> [rejected |-> IF r.dim = 1 THEN Invalid1(r.r) ELSE Invalid2(r.r)]
       [] r.api = "hist" -> WantHist(r)
+      [] r.api = "moo" -> WantMoo(r)
       [] OTHER -> << >>
 
 \* signature of the failing input class (used to match known findings)
@@ -167,6 +202,7 @@ Sig(r) ==
       [] r.api \in {"sub1", "sub2"} -> r.api \o ":" \o r.m \o (IF Len(r.px) = 2 /\ r.px[1] >= r.px[2] THEN ":empty-range" ELSE "")
       [] r.api = "ctor" -> "ctor" \o ToString(r.dim) \o ":" \o CtorClass(r)
       [] r.api = "hist" -> HistSig(r)
+      [] r.api = "moo" -> MooSig(r)
       [] OTHER -> r.api
 
 Failed(r) == SelectSeq(Clauses(r), LAMBDA c : ~ c.ok)
